@@ -485,3 +485,101 @@ Definition stop_fin (p : spc) : bool := match p with SFin => true | _ => false e
 Definition quiescent (s : st) : bool := op_fin (op s) && fut_fin (fp s) && stop_fin (sp s).
 
 End Future.
+
+(* ------------------------------------------------------------------------------------------ *)
+(* SpawnFault: the sequential start-up of spawn_detached (spawn_detached.hpp:146-194) and
+   spawn_future (spawn_future.hpp _spawn_future_fn::operator()) with a fault point after each
+   stage: the allocation, the nest() of the future (spawn_future only), the nest() of the
+   spawned sender (the scope's nest or the sender's move into the nest sender throws) and its
+   connect().  What is tracked: allocations / deallocations of the operation's heap block,
+   references held on the scope, whether the exception left the spawn call, whether the
+   operation was started.  late_guard = true is the (wrong) variant of spawn_detached whose
+   deallocating scope_guard is armed only after nest() (seeded defect C09-seed2). *)
+Module SpawnFault.
+
+Inductive fn := Detached | Future.
+Inductive stage := SAlloc | SNestFut | SNestOp | SConnect.
+
+Record st := {
+  allocs : nat; deallocs : nat;
+  refs : nat;              (* scope references currently held *)
+  threw : bool;            (* an exception left the spawn call *)
+  started : nat;           (* operations started *)
+  completed : nat
+}.
+
+Definition st0 : st :=
+  {| allocs := 0; deallocs := 0; refs := 0; threw := false; started := 0; completed := 0 |}.
+
+Definition stage_eqb (a b : stage) : bool :=
+  match a, b with
+  | SAlloc, SAlloc | SNestFut, SNestFut | SNestOp, SNestOp | SConnect, SConnect => true
+  | _, _ => false
+  end.
+
+Definition faults_at (f : option stage) (s : stage) : bool :=
+  match f with Some x => stage_eqb x s | None => false end.
+
+Definition alloc1 (s : st) : st :=
+  {| allocs := S (allocs s); deallocs := deallocs s; refs := refs s; threw := threw s;
+     started := started s; completed := completed s |}.
+Definition dealloc1 (s : st) : st :=
+  {| allocs := allocs s; deallocs := S (deallocs s); refs := refs s; threw := threw s;
+     started := started s; completed := completed s |}.
+Definition ref_up (s : st) : st :=
+  {| allocs := allocs s; deallocs := deallocs s; refs := S (refs s); threw := threw s;
+     started := started s; completed := completed s |}.
+Definition ref_down (s : st) : st :=
+  {| allocs := allocs s; deallocs := deallocs s; refs := pred (refs s); threw := threw s;
+     started := started s; completed := completed s |}.
+Definition throw (s : st) : st :=
+  {| allocs := allocs s; deallocs := deallocs s; refs := refs s; threw := true;
+     started := started s; completed := completed s |}.
+Definition start_complete (s : st) : st :=
+  {| allocs := allocs s; deallocs := deallocs s; refs := refs s; threw := threw s;
+     started := S (started s); completed := S (completed s) |}.
+
+(* spawn_detached: allocate ; [guard armed] ; nest ; [late guard armed] ; construct = connect ;
+   guard released ; start ; the operation completes, releases its scope reference (nest
+   receiver) and frees itself *)
+Definition run_detached (late_guard : bool) (f : option stage) : st :=
+  if faults_at f SAlloc then throw st0
+  else
+    let s1 := alloc1 st0 in
+    if faults_at f SNestOp then
+      (* unwinding: the guard deallocates, if it is armed already *)
+      throw (if late_guard then s1 else dealloc1 s1)
+    else
+      let s2 := ref_up s1 in
+      if faults_at f SConnect then
+        (* the nest sender temporary is destroyed (reference released), the guard deallocates *)
+        throw (dealloc1 (ref_down s2))
+      else
+        dealloc1 (ref_down (start_complete s2)).
+
+(* spawn_future: allocate ; construct the operation block ; try { nest the future ; nest the
+   sender ; connect ; start } catch { the future was destroyed during unwinding: drop moves init
+   to complete and releases its reference ; deleter ; rethrow }.  The clean run ends with the
+   operation completing and the future being dropped or awaited: both references released,
+   one of the two sides deletes *)
+Definition run_future (f : option stage) : st :=
+  if faults_at f SAlloc then throw st0
+  else
+    let s1 := alloc1 st0 in
+    if faults_at f SNestFut then throw (dealloc1 s1)
+    else
+      let s2 := ref_up s1 in
+      if faults_at f SNestOp then throw (dealloc1 (ref_down s2))
+      else
+        let s3 := ref_up s2 in
+        if faults_at f SConnect then throw (dealloc1 (ref_down (ref_down s3)))
+        else dealloc1 (ref_down (ref_down (start_complete s3))).
+
+Definition run (late_guard : bool) (g : fn) (f : option stage) : st :=
+  match g with Detached => run_detached late_guard f | Future => run_future f end.
+
+(* the fault points a spawn actually has *)
+Definition has_stage (g : fn) (s : stage) : bool :=
+  match g, s with Detached, SNestFut => false | _, _ => true end.
+
+End SpawnFault.
